@@ -217,7 +217,9 @@ def jumps(ctx, repo, dis):
         return None
     of = ObjFolder(repo, 'z80', 'Assembler', extra_hook=hook)
     addrs = [0, 1, 2, 100, 126, 127, 128, 129, 130, 0x7FFF, 0x8000] + list(range(65400, 65416)) + list(range(65530, 65536))
-    step = 1 if ctx.tier == 'thorough' else 1
+    if ctx.tier == 'thorough':
+        addrs = sorted(set(addrs) | set(range(65380, 65536)) | set(range(0, 65536, 257)) | set(range(0, 140)))
+    step = 1
     for address in addrs:
         bad = None
         for off in range(0, 256, step):
